@@ -622,7 +622,10 @@ class Interp:
 
     def st_Raise(self, s, env):
         if s.exc is None:
-            raise Unsupported("bare raise")
+            cur = getattr(env, "handling", None)
+            if cur is None:
+                raise Unsupported("bare raise outside a handler of the same function")
+            raise PyRaise(cur.exc, s.lineno)
         e = self.eval(s.exc, env)
         if isinstance(e, type):
             e = e()
@@ -645,13 +648,47 @@ class Interp:
                 self.call(ex, [None, None, None], {})
 
     def st_Try(self, s, env):
-        # only the ImportError idiom and try/finally are supported
-        if s.handlers:
-            raise Unsupported(f"try/except at {env.qualname}:{s.lineno}")
-        try:
-            self.exec_block(s.body, env)
-        finally:
-            self.exec_block(s.finalbody, env)
+        """try / except / else / finally over the exceptions the interpreted program raises (PyRaise).  Conditions the engine turns into safety
+        obligations instead of raising (index in bounds, shapes, ...) cannot be caught by a handler here: a try body that generates such an
+        obligation under a handler is outside the modelled subset."""
+        def guarded():
+            n0 = sum(1 for ob in self.session.obligations if ob.kind == "safety")
+            try:
+                self.exec_block(s.body, env)
+            except PyRaise as e:
+                if sum(1 for ob in self.session.obligations if ob.kind == "safety") != n0:
+                    raise Unsupported(f"try/except at {env.qualname}:{s.lineno} around operations whose failure the engine states as obligations")
+                for h in s.handlers:
+                    if h.type is None:
+                        match = True
+                    else:
+                        t = self.eval(h.type, env)
+                        ts = t if isinstance(t, tuple) else (t,)
+                        if not all(isinstance(x, type) for x in ts):
+                            raise Unsupported(f"except clause with a non class at {env.qualname}:{h.lineno}")
+                        match = isinstance(e.exc, ts)
+                    if match:
+                        if h.name:
+                            env.vars[h.name] = e.exc
+                        prev = getattr(env, "handling", None)
+                        env.handling = e
+                        try:
+                            self.exec_block(h.body, env)
+                        finally:
+                            env.handling = prev
+                        return
+                raise
+            else:
+                if s.handlers and sum(1 for ob in self.session.obligations if ob.kind == "safety") != n0:
+                    raise Unsupported(f"try/except at {env.qualname}:{s.lineno} around operations whose failure the engine states as obligations")
+                self.exec_block(s.orelse, env)
+        if s.finalbody:
+            try:
+                guarded()
+            finally:
+                self.exec_block(s.finalbody, env)
+        else:
+            guarded()
 
     # ---------------- loops
     def loop_spec(self, env, s):
